@@ -17,6 +17,10 @@ for nm in names:
             res[nm] = {'error': 'patch does not apply: ' + r.stdout[-200:]}
             continue
         r = subprocess.run([os.path.join(V, 'pv'), 'all'], env=dict(os.environ, PV_REPO=tmp), cwd=V, stdout=subprocess.PIPE, stderr=subprocess.STDOUT, text=True)
+        if 'Traceback' in r.stdout or 'no verdict' in r.stdout:
+            res[nm] = {'error': 'checker crashed / no verdict: ' + r.stdout[-300:]}
+            print(nm, 'CHECKER-ERROR', r.stdout[-300:], flush=True)
+            continue
         fired = {}
         cur = None
         for line in r.stdout.splitlines():
